@@ -73,12 +73,13 @@ func init() {
 			// incl. a rule that fails on its first execution of a call only: named twice in a layer, one occurrence
 			// fails and the other succeeds
 			FailKinds: []int{trace.FailDivZero, trace.FailAddString, trace.FailMissingVar, trace.FailCmpType, trace.FailPanicFn, trace.FailMissingFn, trace.FailIndexCond, trace.FailNonBool, trace.FailPanicBig, trace.FailFirstOnly, trace.FailFirstOnly, trace.FailFirstOnly}},
-		Calls:    6,
-		PoolProb: 0.35,
-		Holds:    true,
-		DupDAG:   true,
-		BigSets:  6,
-		EmptyDAG: true,
+		Calls:     6,
+		PoolProb:  0.35,
+		Holds:     true,
+		DupDAG:    true,
+		BigSets:   6,
+		EmptyDAG:  true,
+		SlowLayer: true,
 	}
 	fw.Families["C13"] = func(k *fw.Case) { trace.RunCase(k, c13) }
 
